@@ -526,6 +526,13 @@ def classify(cop, got, want):
 
 def equality_battery(ctx, clsname, cls, d, inp):
     """d must equal every mapping with the same upper-cased content, in any key order and letter case"""
+    try:
+        _equality_battery(ctx, clsname, cls, d, inp)
+    except Exception as e:  # noqa: BLE001 - a comparison must answer, never fail
+        ctx.violation('equality-raises', inp, f'{clsname} {list(d.items())!r}: a comparison raised {type(e).__name__}: {e}')
+
+
+def _equality_battery(ctx, clsname, cls, d, inp):
     from icalendar.caselessdict import CaselessDict
     from icalendar.parser import Parameters
     items = list(d.items())
